@@ -1,6 +1,7 @@
 package vc
 
 import (
+	"os"
 	"sort"
 	"fmt"
 	"go/ast"
@@ -120,6 +121,18 @@ func (en *evalEnv) lookupIdent(name string) (ev, bool) {
 			}
 		}
 	}
+	if en.point != nil && os.Getenv("SLIPVC_DEBUG") == "names" {
+		for _, bb := range en.point.Parent().Blocks {
+			for _, in := range bb.Instrs {
+				if dr, ok := in.(*ssa.DebugRef); ok {
+					if id, ok := dr.Expr.(*ast.Ident); ok && id.Name == name {
+						fmt.Fprintf(os.Stderr, "debugref %s in block %d addr=%v X=%T %v has=%v\n", name, bb.Index, dr.IsAddr, dr.X, dr.X.Name(), en.hasValue(dr.X))
+					}
+				}
+			}
+		}
+		fmt.Fprintf(os.Stderr, "point block %d\n", en.point.Block().Index)
+	}
 	if en.point != nil {
 		// the most recent reference to this name before the program point, searching back through
 		// the block and its unique predecessors
@@ -131,7 +144,7 @@ func (en *evalEnv) lookupIdent(name string) (ev, bool) {
 			}
 		}
 		pb := b
-		for hops := 0; b != nil && hops < 12; hops++ {
+		for hops := 0; b != nil && hops < 64; hops++ {
 			for i := idx - 1; i >= 0; i-- {
 				if dr, ok := b.Instrs[i].(*ssa.DebugRef); ok && !dr.IsAddr {
 					if id, ok := dr.Expr.(*ast.Ident); ok && id.Name == name {
@@ -157,6 +170,9 @@ func (en *evalEnv) lookupIdent(name string) (ev, bool) {
 				}
 			}
 			// continue in the immediate dominator: a reference there dominates the program point
+			if os.Getenv("SLIPVC_DEBUG") == "names" {
+				fmt.Fprintf(os.Stderr, "walk %s: block %d idom %v\n", name, b.Index, b.Idom())
+			}
 			b = b.Idom()
 			if b != nil {
 				idx = len(b.Instrs)
@@ -248,7 +264,20 @@ func (en *evalEnv) pkgByName(name string) *ssa.Package {
 	return nil
 }
 
+var builtinTypeNames = map[string]types.Type{
+	"bool": types.Typ[types.Bool], "string": types.Typ[types.String], "int": types.Typ[types.Int], "int8": types.Typ[types.Int8],
+	"int16": types.Typ[types.Int16], "int32": types.Typ[types.Int32], "int64": types.Typ[types.Int64], "uint": types.Typ[types.Uint],
+	"uint8": types.Typ[types.Uint8], "uint16": types.Typ[types.Uint16], "uint32": types.Typ[types.Uint32], "uint64": types.Typ[types.Uint64],
+	"float32": types.Typ[types.Float32], "float64": types.Typ[types.Float64],
+	"bytes":          types.NewSlice(types.Typ[types.Uint8]),
+	"slice_any":      types.NewSlice(types.Universe.Lookup("any").Type()),
+	"map_string_any": types.NewMap(types.Typ[types.String], types.Universe.Lookup("any").Type()),
+}
+
 func (en *evalEnv) typeByName(name string) types.Type {
+	if t, ok := builtinTypeNames[name]; ok {
+		return t
+	}
 	star := false
 	if strings.HasPrefix(name, "*") {
 		star = true
@@ -308,6 +337,9 @@ func (en *evalEnv) eval(x Expr) ev {
 		return ev{&Term{"$nil", "$nil"}, nil}
 	case *EIdent:
 		v, ok := en.lookupIdent(x.Name)
+		if !ok && os.Getenv("SLIPVC_DEBUG") != "" {
+			fmt.Fprintf(os.Stderr, "lookup failed %s point=%v inOld=%v phis=%v\n", x.Name, en.point != nil, en.inOld, en.phis != nil)
+		}
 		if !ok {
 			en.fail("unknown identifier %s in contract of %s", x.Name, FuncName(en.fn))
 		}
@@ -788,8 +820,12 @@ func (e *Exec) callByContract(fr *Frame, st *State, x *ssa.Call, callee *ssa.Fun
 	}
 	for _, cl := range ct.Ensures {
 		en := e.newEnv(cf, st, pre)
+		en.inOld = true
 		e.bindResults(en, callee, rl)
-		e.assume(st.pc, e.evalClause(en, cl))
+		// a clause that mentions the callee's locals cannot be used at a call site: it is simply not assumed
+		if g, ok := e.tryClause(en, cl.Text, cl.Expr); ok {
+			e.assume(st.pc, g)
+		}
 	}
 	return res, true
 }
